@@ -615,6 +615,49 @@ def main(argv):
                     c.violation("shard-invalid-file: %s shard %s is not a valid stream (%s)" % (comp, n, e), rep)
             if tot != inp:
                 c.violation("shard-wrong-bytes: shards expand to %r" % tot[:40], rep)
+    # --- a tool reading compressed stdin through util::FilePiece (file_piece.cc falls back to ReadCompressed):
+    #     the same lines must come out whether the input is plain, gz, bz2, xz, multi-member or truncated->error
+    text = b"".join(b"key%d\tvalue %d\n" % (i % 13, i) for i in range(3000))
+    variants = {"gz": enc("gz", text), "bz": enc("bz", text), "xz": enc("xz", text),
+                "gz+bz+xz members": enc("gz", text[:20000]) + enc("bz", text[20000:30000]) + enc("xz", text[30000:]),
+                "gz members at a refill boundary": None}
+    m1 = None
+    for n in range(16384 + 6 - 40, 16384 + 6):
+        cand = enc("gz", bytes(c.rng.randrange(65, 91) for _ in range(n - 1)) + b"\n", 0)    # one long line of letters
+        if len(cand) == 6 + 16384:
+            m1 = cand
+            break
+    if m1 is not None:
+        variants["gz members at a refill boundary"] = m1 + enc("gz", text)
+    ref = None
+    for name, stream in [("plain", text)] + [(k, v) for k, v in variants.items() if v is not None]:
+        shutil.rmtree(sd, ignore_errors=True)
+        os.makedirs(sd)
+        st, so, se = run_tool([repo_bin("shard"), "-f", "1", "a", "b", "c"], stdin=stream, timeout=60, cwd=sd)
+        outs = [open(os.path.join(sd, n), "rb").read() if os.path.exists(os.path.join(sd, n)) else None for n in ("a", "b", "c")]
+        c.count(("shard-input", name), bucket="tool/shard-reads-%s-stdin" % name.split(" ")[0])
+        rep = {"op": "shard", "how": "<%s input, %d bytes> | shard -f 1 a b c" % (name, len(stream)), "status": st}
+        if name == "plain":
+            ref = outs
+            continue
+        if name == "gz members at a refill boundary":
+            want_prefix = zlib.decompress(m1, 31)
+            # the first member's bytes are extra lines in front; compare the multiset of the known text lines only
+            got = b"".join(o or b"" for o in outs)
+            if st != 0 or sorted(l for l in got.split(b"\n") if l.startswith(b"key")) != sorted(l for l in text.split(b"\n") if l):
+                c.violation("tool-loses-lines-of-later-member: %s: status %s" % (name, st), rep)
+            continue
+        if st != 0 or outs != ref:
+            c.violation("tool-compressed-input-differs: shard on %s input gives different files than on the plain input (status %s)" % (name, st), rep)
+    for name in ("gz", "bz", "xz"):
+        cut = variants[name][:len(variants[name]) * 2 // 3]
+        shutil.rmtree(sd, ignore_errors=True)
+        os.makedirs(sd)
+        st, so, se = run_tool([repo_bin("shard"), "a", "b"], stdin=cut, timeout=30, cwd=sd)
+        c.count(("shard-trunc", name), bucket="tool/shard-reads-truncated-%s-stdin" % name)
+        if st == 0 or st == "timeout":
+            c.violation("tool-truncated-input-%s: shard on a truncated %s stream ends with status %s" % ("hangs" if st == "timeout" else "accepted", name, st),
+                        {"op": "shard", "how": "head -c %d text.%s | shard a b" % (len(cut), name), "status": st})
     shutil.rmtree(sd, ignore_errors=True)
 
     return c.finish(level="proof",
